@@ -67,6 +67,9 @@ func (b *Builder) Build() (*DFA, error) {
 	// Check if the NFA contains EndLine ($) assertions
 	hasEndLine := b.checkHasEndLine()
 
+	// Which look-behind assertion kinds (\A, (?m)^) occur in the NFA
+	lookBehindMask := b.lookBehindMask()
+
 	// Check if the pattern is always anchored (has ^ prefix)
 	isAlwaysAnchored := b.nfa.IsAlwaysAnchored()
 
@@ -84,6 +87,7 @@ func (b *Builder) Build() (*DFA, error) {
 		unanchoredStart:  b.nfa.StartUnanchored(),
 		hasWordBoundary:  hasWordBoundary,
 		hasEndLine:       hasEndLine,
+		lookBehindMask:   lookBehindMask,
 		isAlwaysAnchored: isAlwaysAnchored,
 		startByteMap:     startByteMap,
 	}
@@ -148,48 +152,83 @@ func (b *Builder) epsilonClosure(states []nfa.StateID, lookHave LookSet) []nfa.S
 // with full word boundary tracking.
 //
 // This is the core determinization operation:
-//  1. Resolve word boundary assertions based on isFromWord and current byte
-//  2. For each NFA state in the resolved set
+//  1. Resolve the assertions that look at the input byte (word boundaries, (?m)$)
+//     by re-computing the epsilon closure of the set (resolveLookAhead)
+//  2. For each NFA state in the resolved set, in priority order
 //  3. Check if it has a transition on byte b
-//  4. Collect all target states
-//  5. Compute epsilon-closure of targets with appropriate look assertions
-//  6. Return the resulting state set
-//
-// The look assertions after a byte transition depend on:
-//   - Line context: After '\n', LookStartLine is satisfied (multiline ^)
-//   - Word context: Compare isFromWord with isWordByte(input) for \b/\B
+//  4. Epsilon-close each target with the look-behind assertions that hold after b
+//  5. Return the resulting state set
 //
 // isFromWord indicates whether the PREVIOUS byte (before this transition) was a word char.
 // This is used to compute word boundary assertions:
 //   - If isFromWord != isWordByte(input) → word boundary (\b) satisfied
 //   - If isFromWord == isWordByte(input) → non-word boundary (\B) satisfied
 //
-// This effectively simulates one step of the NFA for all active states.
+// This effectively simulates one step of the NFA for all active states. The set is
+// taken to stand at a position where neither \A nor (?m)^ holds; determinize, which
+// knows the look-behind context of the DFA state, calls resolveLookAhead and step
+// itself.
 func (b *Builder) moveWithWordContext(states []nfa.StateID, input byte, isFromWord bool) []nfa.StateID {
-	return b.moveWithWordContextBreak(states, input, isFromWord, false)
+	return b.moveWithWordContextBreak(states, input, isFromWord, LookNone, false)
 }
 
-// moveWithWordContextBreak is moveWithWordContext with optional break-at-match.
+// moveWithWordContextBreak is moveWithWordContext with the look-behind context of
+// the set (lookBehind, see State.lookHave) and optional break-at-match.
+func (b *Builder) moveWithWordContextBreak(states []nfa.StateID, input byte, isFromWord bool, lookBehind LookSet, breakAtMatch bool) []nfa.StateID {
+	resolved := states
+	if b.hasWordBoundary || input == '\n' {
+		resolved = b.resolveLookAhead(states, lookBehind, isFromWord, input)
+	}
+	return b.step(resolved, input, breakAtMatch)
+}
+
+// resolveLookAhead re-computes the epsilon closure of a DFA state's thread list
+// once the next input byte is known (Rust determinize::next, "look-ahead
+// re-computation"). The closure that produced the list could only follow the
+// assertions about what precedes the position (lookBehind: \A, (?m)^). With the
+// next byte, (?m)$ (next byte is '\n') and \b / \B (word-ness of the previous
+// byte vs. word-ness of the next byte) can be decided as well.
+//
+// The result is the list the original closure would have produced had it known
+// the look-ahead: every thread is re-closed IN PRIORITY ORDER into one ordered
+// set, with lookBehind plus the newly decided assertions. A thread that becomes
+// reachable through a now satisfied assertion is inserted right behind that
+// assertion, i.e. with the priority of the path that leads to it - not appended,
+// and not sorted by state number. This order is what leftmost-first matching
+// (break-at-match in step, the first Match wins) relies on: "x*\b" must prefer
+// consuming another x over the match behind \b, "a|\B" must prefer the a.
+// lookBehind has to be part of the look set: the threads behind an assertion that
+// was followed before would otherwise be re-inserted at their own list position,
+// behind lower priority threads.
+func (b *Builder) resolveLookAhead(states []nfa.StateID, lookBehind LookSet, isFromWord bool, input byte) []nfa.StateID {
+	look := lookBehind
+	if input == '\n' {
+		look |= LookEndLine
+	}
+	if isFromWord != isWordByte(input) {
+		look |= LookWordBoundary
+	} else {
+		look |= LookNoWordBoundary
+	}
+	return b.epsilonClosure(states, look)
+}
+
+// step computes the threads after consuming input: for every thread of the
+// (resolved) list that has a transition on the byte, the epsilon closure of the
+// target, in priority order.
+//
 // When breakAtMatch is true, iteration stops at the first Match state encountered.
 // This implements Rust's determinize::next break semantics (mod.rs:284):
-// after finding a Match, remaining states (prefix restarts) are not processed,
-// so the DFA reaches dead state and terminates with the committed match.
+// after finding a Match, remaining states (lower priority threads, prefix
+// restarts) are not processed, so the DFA reaches dead state and terminates with
+// the committed match.
 //
 // Critical: uses INCREMENTAL epsilon closure (per-target, like Rust) instead of
 // batch closure. This ensures that each ByteRange target's epsilon closure is
 // added to the result set in iteration order. Match states from earlier targets
 // appear before prefix restart states from later targets, making break-at-match
 // work correctly for all patterns.
-func (b *Builder) moveWithWordContextBreak(states []nfa.StateID, input byte, isFromWord bool, breakAtMatch bool) []nfa.StateID {
-	var resolvedStates []nfa.StateID
-	if !b.hasWordBoundary {
-		resolvedStates = states
-	} else {
-		isCurrentWord := isWordByte(input)
-		wordBoundarySatisfied := isFromWord != isCurrentWord
-		resolvedStates = b.resolveWordBoundaries(states, wordBoundarySatisfied)
-	}
-
+func (b *Builder) step(resolvedStates []nfa.StateID, input byte, breakAtMatch bool) []nfa.StateID {
 	// Determine look assertions satisfied after this byte transition.
 	var lookAfter LookSet
 	if input == '\n' {
@@ -310,6 +349,11 @@ func (b *Builder) epsilonClosureInto(result *StateSet, seed nfa.StateID, lookHav
 //  2. When consuming 'w', we check word boundary (satisfied at word start)
 //  3. resolveWordBoundaries follows StateLook(\b) → ByteRange('w')
 //  4. Now ByteRange('w') can match and continue
+//
+// NOTE: determinize does not use this function anymore. It returns the expanded set
+// SORTED by state number, i.e. without thread priorities, so it can only answer
+// "which states are in the set"; determinize needs the priorities (leftmost-first)
+// and uses resolveLookAhead, an ordered re-closure, instead.
 //
 // IMPORTANT: This function only expands states reachable by CROSSING a word boundary assertion.
 // It does NOT follow epsilon/split transitions from states that haven't crossed a word boundary.
@@ -440,35 +484,36 @@ func (b *Builder) containsMatchState(states []nfa.StateID) bool {
 	return false
 }
 
-// CheckEOIMatch checks if there's a match at end-of-input by resolving pending
-// word boundary assertions.
+// CheckEOIMatch checks if there's a match at end-of-input by resolving the
+// assertions that could not be decided before the end was known.
 //
 // At end of input:
 //   - "Previous" byte is known from isFromWord
 //   - "Next" byte is conceptually non-word (outside the string)
 //   - Word boundary (\b) is satisfied if isFromWord is true (word → non-word)
 //   - Non-word boundary (\B) is satisfied if isFromWord is false (non-word → non-word)
+//   - \z and $ are satisfied
 //
 // This is called after the main search loop when we've exhausted input
-// but might still have pending word boundary assertions that could match.
+// but might still have pending assertions that could match. The set is taken to
+// stand at a position where neither \A nor (?m)^ holds; see checkEOIMatchLook.
 func (b *Builder) CheckEOIMatch(states []nfa.StateID, isFromWord bool) bool {
-	// At EOI, "next" byte is non-word, so:
-	// - \b is satisfied if isFromWord is true (transition from word to non-word)
-	// - \B is satisfied if isFromWord is false (staying in non-word)
-	wordBoundarySatisfied := isFromWord
+	return b.checkEOIMatchLook(states, isFromWord, LookNone)
+}
 
-	// Resolve word boundary assertions
-	resolved := b.resolveWordBoundaries(states, wordBoundarySatisfied)
-
-	// Also check end-of-text assertions (\z, $)
-	// At EOI, both are satisfied
-	lookHave := LookSetForEOI()
-
-	// Expand with end-of-text assertions
-	final := b.epsilonClosure(resolved, lookHave)
-
-	// Check if any resulting state is a match
-	return b.containsMatchState(final)
+// checkEOIMatchLook is CheckEOIMatch with the look-behind context of the set
+// (see State.lookHave). All assertions are resolved by ONE closure with the
+// complete look set of the end position, so that chains like "a$\b", "\b$" or
+// "(?m)^$" on an empty last line are followed whatever the order of the
+// assertions is.
+func (b *Builder) checkEOIMatchLook(states []nfa.StateID, isFromWord bool, lookBehind LookSet) bool {
+	look := lookBehind | LookSetForEOI()
+	if isFromWord {
+		look |= LookWordBoundary
+	} else {
+		look |= LookNoWordBoundary
+	}
+	return b.containsMatchState(b.epsilonClosure(states, look))
 }
 
 // Compile is a convenience function to build a DFA from an NFA with default config
@@ -727,6 +772,26 @@ func (b *Builder) checkHasWordBoundary() bool {
 		}
 	}
 	return false
+}
+
+// lookBehindMask returns the look-behind assertion kinds (LookStartText,
+// LookStartLine) that occur in the NFA. Computed once at DFA build time.
+func (b *Builder) lookBehindMask() LookSet {
+	var mask LookSet
+	numStates := b.nfa.States()
+	for i := nfa.StateID(0); int(i) < numStates; i++ {
+		state := b.nfa.State(i)
+		if state == nil || state.Kind() != nfa.StateLook {
+			continue
+		}
+		switch look, _ := state.Look(); look {
+		case nfa.LookStartText:
+			mask |= LookStartText
+		case nfa.LookStartLine:
+			mask |= LookStartLine
+		}
+	}
+	return mask
 }
 
 // checkHasEndLine checks if the NFA contains EndLine ($) look assertions.
